@@ -112,6 +112,7 @@ func (c *RunnerCloserManager) AddCloser(closers ...any) error {
 		return ErrManagerAlreadyClosed
 	}
 
+	verifPoint("closer.addcloser.checked")
 	c.mngr.lock.Lock()
 	defer c.mngr.lock.Unlock()
 
